@@ -15,7 +15,7 @@ THEOREMS = ["constants_consistent", "sha256_is_256_bit", "convert_is_identity", 
             "returns_requested_number_or_error_refuted", "returns_requested_number_or_error_outside_known",
             "known_short_list_exact", "range_filter_exact", "fetcher_range_filter_exact",
             "fetcher_order_closest_first", "fetch_schedule_closest_first", "fetch_acceptor_is_spec",
-            "fetch_history_agreement_sound", "store_distance_index_exact", "closest_peers_spec",
+            "fetch_history_agreement_sound", "farthest_on_full_exact", "fullness_bound_invariant", "store_distance_index_exact", "closest_peers_spec",
             "candidates_spec"]
 RULE = ("addresses of all six kinds (peer bytes incl. non-PeerId byte strings, chunk, register, scratchpad, "
         "transaction, raw record key) and the record-key form of each; peers are sha2-256 and identity multihash "
@@ -23,7 +23,10 @@ RULE = ("addresses of all six kinds (peer bytes incl. non-PeerId byte strings, c
         "ranges 0, exact distance of a chosen element -1/0/+1, 2^256-1, random; routing tables of 0-40 peers; "
         "fetcher adverts of 2-18 distinct keys; fetcher scheduling histories (2-3 holders with overlapping adverts of "
         "6-70 (key,type)s incl. one key under two types, backlog above MAX_PARALLEL_FETCH, completions freeing slots "
-        "closest-first or at random, early completions, plain scheduling calls, optional range). A case is non-trivial/distinct by (op, outcome class, size class, "
+        "closest-first or at random, early completions, plain scheduling calls, optional range; every second history "
+        "continues with 1-3 'store full' notifications whose farthest keys lie in the same / adjacent power-of-two "
+        "buckets (incl. a repeated farther one and 'nothing held'), each followed by an advert of fresh keys inside / "
+        "between / beyond the bounds). A case is non-trivial/distinct by (op, outcome class, size class, "
         "address kind, boundary class of the range/count)")
 ASSUMPTIONS = [
     "SHA-256 is computed three times independently (Rust sha2 inside libp2p, Gallina V.lib.Sha256, Python hashlib) "
@@ -331,19 +334,95 @@ def gen_fetch_sched(rng, peers, i):
             steps.append({"s": "next"})
         else:
             advert(rng.choice(holders), 0.6)
+    if i % 2 == 0:
+        steps = steps[:rng.randrange(2, len(steps) + 1)] if len(steps) > 2 else steps
+        steps += gen_fullness(rng, hs, pool, holders)
     return {"op": "fetch_sched", "self": me, "range": None if rg is None else str(rg), "steps": steps}
 
 
-def fetch_pre(c, st, step, hs):
-    """the backlog and the in-flight set the scheduling call inside this operation starts from"""
+def gen_fullness(rng, hs, pool, holders):
+    """1-3 'store full' notifications whose farthest keys lie in the same / adjacent power-of-two buckets of the
+    distance, then adverts with keys inside / between / beyond the bounds, completions and scheduling calls"""
+    dist = lambda k: hs ^ H(bytes.fromhex(k))
+    far_first = sorted({k for k, _ in pool}, key=dist, reverse=True)
+    steps = []
+
+    def fresh(lo, hi, n):
+        out = []
+        for _ in range(4000):
+            if len(out) >= n:
+                break
+            k = rb(rng, 32).hex()
+            if lo < dist(k) <= hi:
+                out.append(k)
+        return out
+
+    # F1: one of the farthest few; F2: closer, mostly in the same bucket (same bit length); F3: next bucket down
+    f1 = far_first[rng.randrange(0, min(3, len(far_first)))]
+    d1 = dist(f1)
+    same = [k for k in far_first if dist(k) < d1 and dist(k).bit_length() == d1.bit_length()]
+    lower = [k for k in far_first if dist(k).bit_length() == d1.bit_length() - 1]
+    seq = [f1]
+    if same and rng.random() < 0.85:
+        seq.append(same[min(len(same) - 1, rng.choice([0, 1, 2, 4, len(same) // 2]))])
+    if rng.random() < 0.3:
+        seq.append(f1)                                   # a farther (or equal) one again: must be ignored
+    if lower and rng.random() < 0.4:
+        seq.append(rng.choice(lower[:3]))
+    if rng.random() < 0.15:
+        seq.insert(rng.randrange(0, len(seq) + 1), None)  # full but nothing held
+    h = 100
+    for f in seq:
+        steps.append({"s": "full", "key": f})
+        if f is None:
+            continue
+        bound = min(dist(x) for x in seq[:seq.index(f) + 1] if x is not None)
+        prev = [dist(x) for x in seq[:seq.index(f)] if x is not None]
+        wider = min(prev) if prev else U256 - 1
+        ks = fresh(0, bound, rng.choice([2, 3, 5]))                       # inside the bound
+        if wider > bound:
+            ks += fresh(bound, wider, rng.choice([1, 2, 3]))             # between the new and the previous bound
+        ks += fresh(max(wider, bound), U256 - 1, rng.choice([0, 1, 2]))   # beyond every bound
+        rng.shuffle(ks)
+        if len(ks) >= 2:
+            steps.append({"s": "add", "holder": rng.choice(holders), "keys": [[k, 0] for k in ks]})
+        r = rng.random()
+        if r < 0.4:
+            steps.append({"s": "next"})
+        elif r < 0.7:
+            k, t = rng.choice(pool)
+            steps.append({"s": "put", "key": k, "type": t})
+    return steps
+
+
+def fetch_bounds(c, hs):
+    """per step: the farthest-distance bound in force before / after it = the minimum of the distances of the
+    farthest keys notified so far (None before the first notification)"""
+    b, out = None, []
+    for st in c["steps"]:
+        pre = b
+        if st["s"] == "full" and st["key"] is not None:
+            d = hs ^ H(bytes.fromhex(st["key"]))
+            b = d if b is None else min(b, d)
+        out.append((pre, b))
+    return out
+
+
+def fetch_pre(c, st, step, hs, bound=None):
+    """the backlog and the in-flight set the scheduling call inside this operation starts from
+    (`bound`: the farthest-distance bound in force before the step)"""
     P = [tuple(e) for e in step["pre_p"]]
     O = [tuple(e) for e in step["pre_o"]]
+    if st["s"] == "full":
+        return None
     if st["s"] == "add":
         new = []
         for k, t in st["keys"]:
             e = (k, t, st["holder"])
             if e in P or e in new:
                 continue
+            if bound is not None and (hs ^ H(bytes.fromhex(k))) > bound:
+                continue         # farther than the store's farthest record: refused
             new.append(e)
         if len(new) < 2:
             return None          # single-key fast path: not this property's subject
@@ -523,8 +602,30 @@ def oracle(c, o):
     if op == "fetch_sched":
         hs = H(bytes.fromhex(c["self"]))
         maxp = o["max_parallel"]
+        bounds = fetch_bounds(c, hs)
         for i, (st, step) in enumerate(zip(c["steps"], o["steps"])):
-            pre = fetch_pre(c, st, step, hs)
+            b_pre, b_post = bounds[i]
+            dist = lambda e: hs ^ H(bytes.fromhex(e[0]))
+            # the fullness bound: equals the minimum of the notified distances, and nothing farther than it is
+            # queued, in flight or handed out (exact 256-bit comparison)
+            got_far = None if step["post_far"] is None else int(step["post_far"])
+            if got_far != b_post:
+                v.append(("farthest-bound", "step %d (%s): farthest acceptable distance is %s, the minimum of the notified "
+                          "farthest distances is %s" % (i, st["s"], got_far, b_post)))
+            if b_post is not None:
+                beyond = [e for e in step["post_p"] + step["post_o"] if dist(e) > b_post]
+                if beyond:
+                    v.append(("beyond-farthest", "step %d (%s): %d entries queued / in flight are farther than the store's "
+                              "farthest record (e.g. key %s at %d > %d)" % (i, st["s"], len(beyond), beyond[0][0][:16],
+                                                                           dist(beyond[0]), b_post)))
+            if st["s"] == "full":
+                keep = (lambda e: True) if b_post is None else (lambda e: dist(e) <= b_post)
+                if sorted(map(tuple, step["post_p"])) != sorted(tuple(e) for e in step["pre_p"] if keep(e)) or \
+                        sorted(map(tuple, step["post_o"])) != sorted(tuple(e) for e in step["pre_o"] if keep(e)) or step["out"]:
+                    if not any(cl in ("beyond-farthest", "farthest-bound") for cl, _ in v):
+                        v.append(("farthest-purge", "step %d (full): maps after the notification are not the entries within the bound" % i))
+                continue
+            pre = fetch_pre(c, st, step, hs, b_pre)
             if pre is None:
                 continue
             P1, O1 = pre
@@ -613,8 +714,15 @@ def model_term(c, o):
         def cents(l):
             return clist([cent(e) for e in l])
         recs = []
-        for st, step in zip(c["steps"], o["steps"]):
-            pre = fetch_pre(c, st, step, hs)
+        bounds = fetch_bounds(c, hs)
+        far = lambda x: copt(x, lambda d: cN(int(d)))
+        for (st, step), (b_pre, _b) in zip(zip(c["steps"], o["steps"]), bounds):
+            if st["s"] == "full":
+                recs.append("(FFull %s, (%s, %s, %s), [], (%s, %s, %s))" % (
+                    copt(st["key"], ck), cents(step["pre_p"]), cents(step["pre_o"]), far(step["pre_far"]),
+                    cents(step["post_p"]), cents(step["post_o"]), far(step["post_far"])))
+                continue
+            pre = fetch_pre(c, st, step, hs, None if step["pre_far"] is None else int(step["pre_far"]))
             if pre is None:
                 continue
             picked = fetch_picked(step, pre[1])
@@ -627,8 +735,9 @@ def model_term(c, o):
                 cst = "(%s %s %s)" % ("FPut" if st["s"] == "put" else "FEarly", ck(st["key"]), cN(st["type"]))
             else:
                 cst = "FNext"
-            recs.append("(%s, (%s, %s), %s, (%s, %s))" % (cst, cents(step["pre_p"]), cents(step["pre_o"]), cents(picked),
-                                                         cents(step["post_p"]), cents(step["post_o"])))
+            recs.append("(%s, (%s, %s, %s), %s, (%s, %s, %s))" % (
+                cst, cents(step["pre_p"]), cents(step["pre_o"]), far(step["pre_far"]), cents(picked),
+                cents(step["post_p"]), cents(step["post_o"]), far(step["post_far"])))
         ks = sorted(kidx, key=kidx.get)
         hl = sorted(hidx, key=hidx.get)
         return ("(let ks := %s in let hl := %s in let k := fun i => nth i ks [] in let h := fun i => nth i hl [] in "
